@@ -29,6 +29,14 @@ CLAIMED = {
    text="TLC checks, on the per-rank programs of collectives of Hamiltonian::prepare/compute, TwoParticleGF::compute and computeAll split/nosplit (spec/MpiProgram.tla), that no collective is mismatched, no rank is left waiting, every rank ends with all eigen-data, the full tables reach the ranks the interface returns them to and kept terms are evaluable everywhere, for all dispatch outcomes, P<=3 (thorough 5) and component layouts incl. vanishing components, fewer components than ranks and non-dividing counts; real multi-rank/multi-thread runs are validated against the specification (MpiProgramTrace.tla) and everything each rank holds is compared with the single-rank single-thread run; time-outs are non-termination.",
    note="TLC; PMPI logger and lexer; rendezvous matching of collectives; tolerance 1e-11 on sums, bitwise on eigen-data; real schedules sampled",
    tech="TLA+ specification of per-rank collective programs + TLC; trace validation of PMPI logs; per-rank data comparison against the 1-rank run"),
+ "C05": dict(cat="model_checking", ref="6 C05",
+   text="TLC proves the transcription of normalize_and_insert (spec/OperatorAlgebra.tla) equal to composition of Jordan-Wigner actions (spec/Fermion.tla) for every product of <=4 (thorough 5) elementary operators over 3 modes, and the CAR; the real Operator arithmetic (A*B, A+B, A-B, alpha*A, -A, commutator, anticommutator, associativity triples, commutes, ==, normal ordering of the product, specialised N and S_z) is evaluated on enumerated and random polynomials and every Fock-space matrix and flag is recomputed exactly by TLC from A, B, C (AlgebraTrace.tla).",
+   note="TLC; harness/pv_algebra.hpp; integer coefficients; real build",
+   tech="TLA+ definition of the fermionic algebra + TLC; trace validation of the library's operator arithmetic (exact integer matrices)"),
+ "C04": dict(cat="model_checking", ref="6 C04",
+   text="TLC checks, for every preset call on every two-site layout with <=6 modes, that the transcribed term list (spec/LatticeTerms.tla) has the matrix of the operator written in the documentation (spec/Hamiltonian.tla), is Hermitian and that Kanamori (U'=U-2J) and spin-spin exchange commute with S^+; the real library builds lattices by the same calls and its Fock-space Hamiltonian matrix (symmetries ignored) is compared entry by entry, as exact integers, with the documented operators by TLC (HamTrace.tla): presets, term factories, user terms of 2/4/6 operators in arbitrary order.",
+   note="TLC; hfock projection; amplitudes multiples of 1/4; real build; addMagnetization doc/code factor 2 is known finding F13",
+   tech="TLA+ documented-operator definitions + TLC; trace validation of the library's Hamiltonian matrix (exact integers)"),
 }
 NOT_YET = "check not built yet in this round (planned in DESIGN.md section 6); not claimed until it runs"
 
